@@ -1,8 +1,11 @@
 """family `valheap` (C19 / C16): the request stream of family `val`, observed through the allocation tracker — per operation
 the change in the number of live heap blocks, at the end the number still live after everything has been released.
+After every operation the executor also walks the real structures from the slots (dump hook `heap_summary` in x_valheap.c):
+every live block must be reached exactly once (`!own` otherwise) and the contents of the string blocks are summarised as
+<count>:<sum of FNV-1a hashes>; the model prints the same summary of its `str` cells.
 The model side is the HEAP model (Model/Heap.lean) run on the same sequence.
 
-Oracle (implementation only): every block allocated during the request has been released at the end (`end=0`), and an
+Oracle (implementation only): no `!own`; every block allocated during the request has been released at the end (`end=0`), and an
 operation that only queries (kind, text, cnt, lget, tget, pget, tkeys, pnames) leaves the number of live blocks unchanged."""
 import os, sys
 sys.path.insert(0, os.path.dirname(os.path.abspath(__file__)))
@@ -13,13 +16,20 @@ HARNESS = {"source": "x_valheap.c", "exclude_objs": ["value"], "extra_sources": 
            "leak_clean": True}
 RULE = ("the operation sequences of family val (same generator, own seed stream); per operation the change in the number of live "
         "blocks reported by the allocation tracker of harness/alloc.h against the change the heap model predicts (model cells + 2 "
-        "per non-empty uthash map); non-trivial = a sequence with at least 3 operations that change the number of live blocks")
+        "per non-empty uthash map), and the contents of all string blocks (count + hash sum) against the model's str cells; ownership walk "
+        "(every live block reached exactly once from the slots); plus 3 (quick) / 25 (thorough) sequences on tables of 330-900 entries "
+        "(past uthash's bucket expansions); non-trivial = a sequence with at least 3 operations that change the number of live blocks")
 QUERY_OPS = ("kind", "text", "cnt", "lget", "tget", "pget", "tkeys", "pnames")
 
 
 def generate(seed, tier):
     for r in val.generate("%s-heap" % seed, tier):
         yield "valheap" + r[3:]
+    # tables beyond uthash's bucket expansions (the bucket array is replaced by a larger one: one block for one block)
+    from common import rng
+    rr = rng(seed, FAMILY + "-big")
+    for _ in range(3 if tier == "quick" else 25):
+        yield "valheap" + val.request(val.big_table(rr, tier == "quick"))[3:]
 
 
 def _parts(impl):
@@ -27,7 +37,11 @@ def _parts(impl):
     if " # " not in body:
         return [], None
     ds, end = body.rsplit(" # ", 1)
-    return ds.split(" "), end
+    return ds.split(" "), end.split(" b=")[0]
+
+
+def _buckets(impl):
+    return int(impl.rsplit(" b=", 1)[1]) if " b=" in impl else 0
 
 
 def oracle(req, impl):
@@ -38,6 +52,11 @@ def oracle(req, impl):
         return "unexpected observation: " + impl[:200]
     if "overflow" in ds:
         return None
+    if any("!own" in d for d in ds):
+        i = [k for k, d in enumerate(ds) if "!own" in d][0]
+        return ("after operation %d the live blocks are not exactly the blocks owned, once each, by the objects in the slots "
+                "(a block nobody owns, a block reached twice, or a pointer that is not a live block)" % i)
+    ds = [d.split(":")[0] for d in ds]
     if end != "end=0":
         return "blocks allocated during the sequence are still live after every object has been released: %s" % end
     ops = req[8:].split(" | ")
@@ -48,7 +67,7 @@ def oracle(req, impl):
 
 
 def agree(impl, model, req=None):
-    if impl == model:
+    if impl.split(" b=")[0] == model:     # b= (largest uthash bucket array met) is an observation about coverage, not compared
         return True
     ds, _ = _parts(impl)
     return "overflow" in ds           # more live blocks than the tracker can follow: nothing to compare
@@ -56,11 +75,12 @@ def agree(impl, model, req=None):
 
 def nontrivial(req, impl):
     ds, _ = _parts(impl)
+    ds = [d.split(":")[0] for d in ds]
     return sum(1 for d in ds if d not in ("0", "?")) >= 3
 
 
 def classify(req, impl):
-    return val.classify("val" + req[7:], impl)
+    return val.classify("val" + req[7:], impl) + (" uthash-expanded" if _buckets(impl) > 32 else "")
 
 
 def shrink(req):
